@@ -53,6 +53,7 @@ type chunkReader struct {
 	cuts  []int // ascending absolute offsets at which a read must stop
 	one   bool  // every read returns at most one byte
 	zero  bool  // a zero-length read precedes every data read
+	eof   bool  // the read delivering the last byte also returns io.EOF
 	zflag bool
 }
 
@@ -84,6 +85,9 @@ func (c *chunkReader) Read(p []byte) (int, error) {
 	}
 	copy(p, c.b[c.pos:c.pos+n])
 	c.pos += n
+	if c.eof && c.pos == len(c.b) {
+		return n, io.EOF // the last bytes together with io.EOF, as io.Reader allows
+	}
 	return n, nil
 }
 
@@ -92,6 +96,7 @@ type chunking struct {
 	cuts []int
 	one  bool
 	zero bool
+	eof  bool
 }
 
 func chunkings(n int, full bool) []chunking {
@@ -99,7 +104,8 @@ func chunkings(n int, full bool) []chunking {
 	if !full {
 		return out
 	}
-	out = append(out, chunking{name: "whole+zero", zero: true}, chunking{name: "1byte+zero", one: true, zero: true})
+	out = append(out, chunking{name: "whole+zero", zero: true}, chunking{name: "1byte+zero", one: true, zero: true},
+		chunking{name: "whole+eof-with-data", eof: true}, chunking{name: "1byte+eof-with-data", one: true, eof: true})
 	for i := 1; i < n; i++ {
 		out = append(out, chunking{name: fmt.Sprintf("cut%d", i), cuts: []int{i}})
 		out = append(out, chunking{name: fmt.Sprintf("cut%d+zero", i), cuts: []int{i}, zero: true})
@@ -219,7 +225,7 @@ func (r *runner) one(b []byte, t byte) {
 		var sDrawn int
 		if tt.Valid() {
 			r.guard(b, t, op, func() {
-				cr := &chunkReader{b: b, cuts: ck.cuts, one: ck.one, zero: ck.zero}
+				cr := &chunkReader{b: b, cuts: ck.cuts, one: ck.one, zero: ck.zero, eof: ck.eof}
 				sr := binary.Default.Reader(cr)
 				v, err := wirex.StreamRead(sr, tt)
 				sr.Close()
@@ -244,7 +250,7 @@ func (r *runner) one(b []byte, t byte) {
 			})
 		}
 		r.guard(b, t, "Skip("+ck.name+")", func() {
-			cr := &chunkReader{b: b, cuts: ck.cuts, one: ck.one, zero: ck.zero}
+			cr := &chunkReader{b: b, cuts: ck.cuts, one: ck.one, zero: ck.zero, eof: ck.eof}
 			sr := binary.Default.Reader(cr)
 			err := sr.Skip(wt)
 			sr.Close()
